@@ -148,7 +148,7 @@ def geom_label(mask) -> str:
 
 
 def _strip(tag: str) -> str:
-    for pre in ("after-dump-", "after-reopen-", "after-bad-dump-", "tiny-state-", "tiny-after-dump-", "state-"):
+    for pre in ("final-", "after-dump-", "after-reopen-", "after-bad-dump-", "tiny-state-", "tiny-after-dump-", "state-"):
         if tag.startswith(pre):
             return tag[len(pre):]
     return tag
@@ -223,6 +223,13 @@ def body_history(data) -> Outcome:
         names = list(stores)
         n_dump = 0
         saw_slice = saw_unwritten_read = False
+        every = data.get("observe", "every-step") == "every-step"
+        out.labels.append("observe:" + data.get("observe", "every-step"))
+
+        def step_check(visible, tag):
+            if every:
+                full_check(out, visible, ref, glabel, tag)
+
         for op in ops:
             kind = op["op"]
             if kind == "dump":
@@ -233,7 +240,7 @@ def body_history(data) -> Outcome:
                 for n in names:
                     _call(out, "dump", n, glabel, lambda: stores[n].dump(key, make_block(ref.int_shape, f"t{n_dump}", op["kind"])))
                 ref.dump(key, blk)
-                full_check(out, {n: stores[n] for n in names}, ref, glabel, "after-dump")
+                step_check({n: stores[n] for n in names}, "after-dump")
             elif kind == "get":
                 key = dec_key(op["key"])
                 saw_slice |= any(isinstance(k, slice) for k in key)
@@ -267,7 +274,7 @@ def body_history(data) -> Outcome:
                     if ok:
                         stores[n] = s2
                 visible = {n: stores[n] for n in names}
-                full_check(out, visible, ref, glabel, "after-reopen")
+                step_check(visible, "after-reopen")
             elif kind in ("bad_get", "bad_dump"):
                 rank = len(sizes) if kind == "bad_get" else len(ref.ext_shape)
                 shape = ref.sizes if kind == "bad_get" else ref.ext_shape
@@ -298,7 +305,9 @@ def body_history(data) -> Outcome:
                     except Exception as e:
                         out.fail(exc_bucket(e, f"{kind}-wrong-exception-{why}:{n}:{glabel}"), exc_detail(e))
                 if kind == "bad_dump":
-                    full_check(out, {n: stores[n] for n in names}, ref, glabel, "after-bad-dump")
+                    step_check({n: stores[n] for n in names}, "after-bad-dump")
+        if not every:
+            full_check(out, {n: stores[n] for n in names}, ref, glabel, "final")
         diff_sizes = len(set(sizes)) >= 2
         out.nontrivial = bool(ref.int_shape) and diff_sizes and saw_slice and saw_unwritten_read
     finally:
@@ -340,7 +349,11 @@ def histories(draw):
                         "why": draw(st.sampled_from(["hi", "lo", "rank+", "rank-"])),
                         "axis": draw(st.integers(0, 2)), "off": draw(st.integers(0, 2))})  # fmt: skip
     backends = draw(st.sampled_from(["all", "no-shared", "no-shared", "no-shared"]))
-    return {"sizes": sizes, "mask": mask, "ops": ops, "backends": backends}
+    # observe="every-step": the complete observation after every mutation; "explicit": only the history's own get/index
+    # operations read between mutations (a read can itself change a lazily loading backend), the complete
+    # observation comes once at the end
+    observe = draw(st.sampled_from(["every-step", "explicit", "explicit"]))
+    return {"sizes": sizes, "mask": mask, "ops": ops, "backends": backends, "observe": observe}
 
 
 # ---- exhaustive campaign ----------------------------------------------------------------------------
